@@ -86,10 +86,12 @@ func (server *SugarDB) Flush(database int) {
 
 	if database == -1 {
 		for db, _ := range server.store {
+			// Give back the memory accounted for the keys of this database.
+			server.releaseDatabaseMemory(db)
 			// Clear db store.
 			clear(server.store[db])
 			// Clear db volatile key tracker.
-			clear(server.keysWithExpiry.keys[db])
+			server.keysWithExpiry.keys[db] = make([]string, 0)
 			// Clear db LFU cache.
 			server.lfuCache.cache[db].Mutex.Lock()
 			server.lfuCache.cache[db].Flush()
@@ -102,10 +104,17 @@ func (server *SugarDB) Flush(database int) {
 		return
 	}
 
+	// A database that was never created has nothing to flush.
+	if server.store[database] == nil {
+		return
+	}
+
+	// Give back the memory accounted for the keys of this database.
+	server.releaseDatabaseMemory(database)
 	// Clear db store.
 	clear(server.store[database])
 	// Clear db volatile key tracker.
-	clear(server.keysWithExpiry.keys[database])
+	server.keysWithExpiry.keys[database] = make([]string, 0)
 	// Clear db LFU cache.
 	server.lfuCache.cache[database].Mutex.Lock()
 	server.lfuCache.cache[database].Flush()
@@ -114,6 +123,18 @@ func (server *SugarDB) Flush(database int) {
 	server.lruCache.cache[database].Mutex.Lock()
 	server.lruCache.cache[database].Flush()
 	server.lruCache.cache[database].Mutex.Unlock()
+}
+
+// releaseDatabaseMemory subtracts what the keys of the given database were accounted for from the memory figure.
+// The caller holds the store lock.
+func (server *SugarDB) releaseDatabaseMemory(database int) {
+	for key, data := range server.store[database] {
+		if mem, err := data.GetMem(); err == nil {
+			server.memUsed -= mem
+		}
+		server.memUsed -= int64(unsafe.Sizeof(key))
+		server.memUsed -= int64(len(key))
+	}
 }
 
 func (server *SugarDB) keysExist(ctx context.Context, keys []string) map[string]bool {
